@@ -3,6 +3,7 @@ package c10
 import (
 	"encoding/binary"
 	"fmt"
+	"strings"
 
 	"pgregory.net/rapid"
 )
@@ -189,4 +190,398 @@ func (m *mut) mutateBytes(b []byte, other func() []byte) []byte {
 		b = m.one(b, other)
 	}
 	return b
+}
+
+// ---------------------------------------------------------------------------
+// Text forms (UnmarshalText / Parse*)
+// ---------------------------------------------------------------------------
+
+type span struct{ lo, hi int }
+
+func runs(s []byte, ok func(c byte) bool, minLen int) []span {
+	var out []span
+	for i := 0; i < len(s); {
+		if !ok(s[i]) {
+			i++
+			continue
+		}
+		j := i
+		for j < len(s) && ok(s[j]) {
+			j++
+		}
+		if j-i >= minLen {
+			out = append(out, span{i, j})
+		}
+		i = j
+	}
+	return out
+}
+
+func isHex(c byte) bool {
+	return c >= '0' && c <= '9' || c >= 'a' && c <= 'f' || c >= 'A' && c <= 'F'
+}
+func isDigit(c byte) bool { return c >= '0' && c <= '9' }
+
+func splice(s []byte, sp span, repl []byte) []byte {
+	out := make([]byte, 0, len(s)-(sp.hi-sp.lo)+len(repl))
+	out = append(out, s[:sp.lo]...)
+	out = append(out, repl...)
+	return append(out, s[sp.hi:]...)
+}
+
+func rep(c byte, n int) []byte {
+	b := make([]byte, n)
+	for i := range b {
+		b[i] = c
+	}
+	return b
+}
+
+func (m *mut) hexChars(n int) []byte {
+	b := m.fill((n + 1) / 2)
+	const digits = "0123456789abcdef"
+	out := make([]byte, 0, n+1)
+	for _, c := range b {
+		out = append(out, digits[c>>4], digits[c&15])
+	}
+	return out[:n]
+}
+
+// hostileNumbers are written over runs of digits (decimal text).
+var hostileNumbers = []string{
+	"0", "1", "2", "255", "256", "65536", "1048576", "16777216", "2147483647", "2147483648", "4294967296",
+	"4611686018427387904", "9223372036854775807", "9223372036854775808", "18446744073709551615", "18446744073709551616",
+	"340282366920938463463374607431768211455", "340282366920938463463374607431768211456",
+	"115792089237316195423570985008687907853269984665640564039457584007913129639935",
+	"115792089237316195423570985008687907853269984665640564039457584007913129639936",
+	"-1", "-0", "+5", "00000000000000000001", "1.5", "0.000000000000000000000001", ".", "1e10", "1E400", "1e-400", "0x10", "0b1", "1_000", "1/3",
+	"1e1000", "1e99999", "1e1000000", "0x1p10000000", "1e-1000000", // the last five belong to the class of finding N3
+}
+
+var digitLens = []int{19, 20, 21, 38, 39, 40, 77, 78, 79, 100, 1000, 10000, 50000}
+
+// textOne applies one mutation to a text form. shaped reports whether the overall
+// shape (separators, prefixes) was kept, i.e. the hostile part reaches the field parsers.
+func (m *mut) textOne(s []byte) (out []byte, shaped bool) {
+	s = clone(s)
+	switch k := m.intn(100, "top"); {
+	case k < 30: // hex run: over-long / short / odd
+		hs := runs(s, isHex, 8)
+		if len(hs) == 0 {
+			return append(s, m.hexChars(2+m.intn(70, "n"))...), false
+		}
+		sp := hs[m.intn(len(hs), "run")]
+		switch m.intn(4, "hexop") {
+		case 0: // lengthen
+			n := []int{1, 2, 3, 4, 6, 64, 65, 128, 1000, 20000}[m.intn(10, "n")]
+			m.note("hex+%d", n)
+			return splice(s, span{sp.hi, sp.hi}, m.hexChars(n)), true
+		case 1: // shorten
+			n := min(sp.hi-sp.lo, []int{1, 2, 3, 4, 6, 32, 63}[m.intn(7, "n")])
+			m.note("hex-%d", n)
+			return splice(s, span{sp.hi - n, sp.hi}, nil), true
+		case 2: // exact hostile lengths
+			n := []int{0, 1, 2, 31, 32, 33, 62, 63, 64, 65, 66, 67, 76, 77, 128, 129, 130}[m.intn(17, "n")]
+			m.note("hex=%d", n)
+			return splice(s, sp, m.hexChars(n)), true
+		default: // a non-hex character inside
+			o := sp.lo + m.intn(sp.hi-sp.lo, "off")
+			const bad = "gGzZ :x-\x00\xff"
+			s[o] = bad[m.intn(len(bad), "c")]
+			m.note("hex!%d", o)
+			return s, true
+		}
+	case k < 55: // digit run: hostile numbers / huge digit strings
+		ds := runs(s, isDigit, 1)
+		var sp span
+		if len(ds) == 0 {
+			sp = span{len(s), len(s)}
+		} else {
+			sp = ds[m.intn(len(ds), "run")]
+		}
+		if m.intn(4, "huge") == 0 {
+			n := digitLens[m.intn(len(digitLens), "len")]
+			m.note("digits*%d", n)
+			return splice(s, sp, rep("19"[m.intn(2, "d")], n)), true
+		}
+		v := hostileNumbers[m.intn(len(hostileNumbers), "num")]
+		m.note("num=%s", v)
+		return splice(s, sp, []byte(v)), true
+	case k < 67: // prefixes and separators
+		seps := runs(s, func(c byte) bool { return c == ':' || c == '(' || c == ')' || c == ',' || c == '[' || c == ']' || c == '.' || c == ' ' }, 1)
+		if len(seps) == 0 {
+			m.note("sep+")
+			return append([]byte([]string{"ed25519:", "::", "5::", ":", "0x", "v", "\""}[m.intn(7, "p")]), s...), false
+		}
+		sp := seps[m.intn(len(seps), "sep")]
+		repl := []string{"", ":", "::", ":::", ";", "(", ")", ",", "[", "]", "((", "))", ",,", " ", "\t\n", "."}[m.intn(16, "r")]
+		m.note("sep@%d=%q", sp.lo, repl)
+		return splice(s, sp, []byte(repl)), true
+	case k < 75: // swap / drop the part before the first separator
+		i := strings.IndexAny(string(s), ":(")
+		if i < 0 {
+			i = 0
+		}
+		repl := []string{"", "ed25519", "ED25519", "ed25519x", "x", "thresh", "uc", "pk", "h", "opaque", "above", "after", "\"quoted\"", "\"unterminated", "0123456789abcdefg"}[m.intn(15, "r")]
+		m.note("head=%q", repl)
+		return splice(s, span{0, i}, []byte(repl)), true
+	case k < 82: // nesting
+		d := []int{1, 2, 31, 32, 33, 34, 100, 1000, 5000}[m.intn(9, "depth")]
+		open, close := "thresh(1,[", "])"
+		if m.intn(4, "par") == 0 {
+			open, close = "(", ")"
+		}
+		m.note("nest*%d", d)
+		out := append([]byte(strings.Repeat(open, d)), s...)
+		return append(out, strings.Repeat(close, d)...), true
+	case k < 88: // unit suffix / trailing junk
+		suf := []string{" SC", "SC", " H", "H", "TS", "pS", "mS", " KS", "XS", " sc", "S", "e5", ")", "]", "\x00", " ", "\n"}[m.intn(17, "suf")]
+		m.note("suffix=%q", suf)
+		return append(s, suf...), true
+	case k < 92: // whole-input replacements
+		v := []string{"", " ", "null", "\"\"", "::", ":", "ed25519:", "0x", "()", "thresh(", "thresh(0,[", "uc(0,[],0)", "uc(0,[", "v1.2", "v256.0.0", "v-1.0.0"}[m.intn(16, "v")]
+		m.note("whole=%q", v)
+		return []byte(v), false
+	default: // byte level
+		if len(s) == 0 {
+			return []byte{0xff}, false
+		}
+		switch m.intn(3, "b") {
+		case 0:
+			o := m.intn(len(s), "off")
+			s[o] = []byte{0, '"', '\\', 0x80, 0xff, ' ', '(', ')', ',', '[', ']', ':', '-', '+', '.', 'e'}[m.intn(16, "c")]
+			m.note("char@%d", o)
+			return s, false
+		case 1:
+			n := m.intn(len(s), "keep")
+			m.note("truncate=%d", n)
+			return s[:n], false
+		default:
+			o := m.intn(len(s), "off")
+			s[o] ^= 1 << m.intn(8, "bit")
+			m.note("flip@%d", o)
+			return s, false
+		}
+	}
+}
+
+func (m *mut) mutateText(s []byte) (out []byte, shaped bool) {
+	n := []int{0, 1, 1, 1, 1, 1, 1, 1, 2, 2, 2, 3}[m.intn(12, "nmut")]
+	out, shaped = s, true
+	for i := 0; i < n; i++ {
+		var sh bool
+		out, sh = m.textOne(out)
+		shaped = shaped && sh
+	}
+	return out, shaped
+}
+
+// ---------------------------------------------------------------------------
+// JSON documents
+// ---------------------------------------------------------------------------
+
+type jtok struct {
+	span
+	kind  byte // 's' string value, 'k' object key, 'n' number, 'l' literal (true/false/null)
+	depth int
+}
+
+// jsonTokens is a forgiving scanner: it finds the scalar tokens of a JSON text
+// without validating it (mutated documents are scanned again for stacked mutations).
+func jsonTokens(s []byte) []jtok {
+	var out []jtok
+	depth := 0
+	for i := 0; i < len(s); {
+		c := s[i]
+		switch {
+		case c == '{' || c == '[':
+			depth++
+			i++
+		case c == '}' || c == ']':
+			depth--
+			i++
+		case c == '"':
+			j := i + 1
+			for j < len(s) && s[j] != '"' {
+				if s[j] == '\\' {
+					j++
+				}
+				j++
+			}
+			j = min(j+1, len(s))
+			k := j
+			for k < len(s) && (s[k] == ' ' || s[k] == '\n' || s[k] == '\t') {
+				k++
+			}
+			kind := byte('s')
+			if k < len(s) && s[k] == ':' {
+				kind = 'k'
+			}
+			out = append(out, jtok{span{i, j}, kind, depth})
+			i = j
+		case c == '-' || isDigit(c):
+			j := i + 1
+			for j < len(s) && (isDigit(s[j]) || s[j] == '.' || s[j] == 'e' || s[j] == 'E' || s[j] == '+' || s[j] == '-') {
+				j++
+			}
+			out = append(out, jtok{span{i, j}, 'n', depth})
+			i = j
+		case c == 't' || c == 'f' || c == 'n':
+			j := i
+			for j < len(s) && s[j] >= 'a' && s[j] <= 'z' {
+				j++
+			}
+			out = append(out, jtok{span{i, j}, 'l', depth})
+			i = j
+		default:
+			i++
+		}
+	}
+	return out
+}
+
+var jsonWrongTypes = []string{
+	"null", "true", "false", "0", "-1", "1.5", "1e400", "-0", "18446744073709551615", "18446744073709551616",
+	"340282366920938463463374607431768211456", `""`, `"x"`, `" "`, `"null"`, `"0"`, "{}", "[]", "[null]", "[[]]", `{"a":{}}`, `[0]`, `[""]`,
+	`{"type":"thresh","policy":{"n":1,"of":[]}}`, `{"type":"","policy":null}`, `"\u0000"`, `"\ud800"`,
+}
+
+var jsonHostileKeys = []string{`"0"`, `"1"`, `"63"`, `"64"`, `"65"`, `"255"`, `"-1"`, `"4294967296"`, `"9223372036854775807"`, `"18446744073709551616"`, `""`, `"x"`, `"1e2"`, `" 1"`, `"01"`}
+
+var jsonDepths = []int{2, 64, 1000, 9998, 9999, 10000, 10001, 20000, 100000}
+
+func deepJSON(d int, open, close string, core string) []byte {
+	return []byte(strings.Repeat(open, d) + core + strings.Repeat(close, d))
+}
+
+// jsonOne applies one mutation to a JSON text. shaped: the result is still meant to be
+// syntactically valid JSON (so the hostile part reaches the type's own unmarshalers).
+func (m *mut) jsonOne(s []byte) (out []byte, shaped bool) {
+	toks := jsonTokens(s)
+	pick := func(kinds string) (jtok, bool) {
+		var c []jtok
+		for _, t := range toks {
+			if strings.IndexByte(kinds, t.kind) >= 0 {
+				c = append(c, t)
+			}
+		}
+		if len(c) == 0 {
+			return jtok{}, false
+		}
+		return c[m.intn(len(c), "tok")], true
+	}
+	switch k := m.intn(100, "jop"); {
+	case k < 30: // hostile text inside a string value
+		t, ok := pick("s")
+		if !ok {
+			break
+		}
+		inner, _ := m.textOne(s[t.lo+1 : max(t.lo+1, t.hi-1)])
+		inner = []byte(strings.NewReplacer("\\", "\\\\", "\"", "\\\"", "\n", "\\n", "\t", "\\t", "\x00", "\\u0000").Replace(string(inner)))
+		m.note("jstr@%d", t.lo)
+		return splice(s, span{t.lo + 1, max(t.lo+1, t.hi-1)}, inner), true
+	case k < 50: // wrong JSON type for a value
+		t, ok := pick("snl")
+		if !ok {
+			break
+		}
+		v := jsonWrongTypes[m.intn(len(jsonWrongTypes), "wt")]
+		m.note("jtype@%d=%s", t.lo, v)
+		return splice(s, t.span, []byte(v)), true
+	case k < 62: // hostile numbers
+		t, ok := pick("n")
+		if !ok {
+			t, ok = pick("sl")
+			if !ok {
+				break
+			}
+		}
+		if m.intn(5, "huge") == 0 {
+			n := digitLens[m.intn(len(digitLens), "len")]
+			m.note("jdigits*%d", n)
+			return splice(s, t.span, rep('9', n)), true
+		}
+		v := hostileNumbers[m.intn(len(hostileNumbers)-5, "num")] // exponent amplifiers are only interesting inside strings
+		m.note("jnum@%d=%s", t.lo, v)
+		return splice(s, t.span, []byte(v)), true // some of these are not JSON numbers: syntax errors are part of the domain
+	case k < 72: // keys: hostile map keys, renamed or duplicated fields
+		t, ok := pick("k")
+		if !ok {
+			break
+		}
+		switch m.intn(3, "kop") {
+		case 0:
+			v := jsonHostileKeys[m.intn(len(jsonHostileKeys), "key")]
+			m.note("jkey@%d=%s", t.lo, v)
+			return splice(s, t.span, []byte(v)), true
+		case 1:
+			m.note("jkey@%d renamed", t.lo)
+			return splice(s, span{t.lo + 1, t.lo + 1}, []byte("x")), true
+		default: // duplicate the key with a hostile value in front
+			v := jsonWrongTypes[m.intn(len(jsonWrongTypes), "wt")]
+			m.note("jkey@%d dup=%s", t.lo, v)
+			return splice(s, span{t.lo, t.lo}, append(append(clone(s[t.lo:t.hi]), ':'), append([]byte(v), ',')...)), true
+		}
+	case k < 82: // deep nesting, in place of a value or around the document
+		d := jsonDepths[m.intn(len(jsonDepths), "depth")]
+		open, close, core := "[", "]", "0"
+		switch m.intn(3, "shape") {
+		case 1:
+			open, close, core = `{"a":`, "}", "0"
+		case 2:
+			open, close, core = `{"type":"thresh","policy":{"n":0,"of":[`, "]}}", `{"type":"above","policy":0}`
+			d = min(d, 3400)
+		}
+		m.note("jnest*%d%s", d, open[:1])
+		if t, ok := pick("snl"); ok && m.intn(3, "where") != 0 {
+			return splice(s, t.span, deepJSON(d, open, close, core)), true
+		}
+		return deepJSON(d, open, close, string(s)), true
+	case k < 88: // long arrays: repeat an element
+		t, ok := pick("snl")
+		if !ok {
+			break
+		}
+		n := []int{2, 3, 64, 65, 256, 1000, 5000}[m.intn(7, "rep")]
+		// the token becomes an array of n copies of itself (well-formed wherever a value may stand)
+		elem := string(s[t.lo:t.hi])
+		m.note("jrepeat@%d*%d", t.lo, n)
+		return splice(s, t.span, []byte("["+strings.Repeat(elem+",", n-1)+elem+"]")), true
+	case k < 92: // whole document
+		v := []string{"", "null", "{}", "[]", `""`, "0", "true", "[{}]", `{"":null}`, "{", "[", `"`, "nul", "\xff"}[m.intn(14, "whole")]
+		m.note("jwhole=%q", v)
+		return []byte(v), false
+	}
+	// byte level (also the fallback when the document has no token of the wanted kind)
+	if len(s) == 0 {
+		return []byte("{"), false
+	}
+	s = clone(s)
+	switch m.intn(3, "b") {
+	case 0:
+		n := m.intn(len(s), "keep")
+		m.note("jtruncate=%d", n)
+		return s[:n], false
+	case 1:
+		o := m.intn(len(s), "off")
+		s[o] = []byte{'"', '{', '}', '[', ']', ':', ',', '\\', 0, 0xff, '0', '-', 'e'}[m.intn(13, "c")]
+		m.note("jchar@%d", o)
+		return s, false
+	default:
+		o := m.intn(len(s), "off")
+		s[o] ^= 1 << m.intn(8, "bit")
+		m.note("jflip@%d", o)
+		return s, false
+	}
+}
+
+func (m *mut) mutateJSON(s []byte) (out []byte, shaped bool) {
+	n := []int{0, 1, 1, 1, 1, 1, 1, 1, 2, 2, 2, 3}[m.intn(12, "nmut")]
+	out, shaped = s, true
+	for i := 0; i < n; i++ {
+		var sh bool
+		out, sh = m.jsonOne(out)
+		shaped = shaped && sh
+	}
+	return out, shaped
 }
